@@ -13,11 +13,9 @@ def addLen (a b : Option Frac) : Option Frac :=
     | none => some y
     | some x => some (x + y)
 
-/-- `to_keep.length += to_del.length` inside a bare `try` (collapse_basal_bifurcation): any `None` leaves it unchanged -/
-def tryAdd (a b : Option Frac) : Option Frac :=
-  match a, b with
-  | some x, some y => some (x + y)
-  | _, _ => a
+/-- `collapse_basal_bifurcation`: the kept sibling absorbs the dissolved edge's length; a missing length is
+    treated as absent (None + x = x, x + None = x, None + None = None) -/
+def tryAdd (a b : Option Frac) : Option Frac := addLen a b
 
 namespace T
 
